@@ -94,7 +94,7 @@ class C03(e1.E1Check):
     types_thorough = types_quick + [var(var(var(I))), reg(2, reg(2, I)), var(var(F)), var(opt(B)), opt(var(var(I))),
                                     var(reg(0, I)), reg(1, var(I)), var(var(var(opt(I))))]
     bounds_quick = dict(N=3, M=2, K=6, enc_k=1, state_cap=45, parts=2)
-    bounds_thorough = dict(N=4, M=3, K=9, enc_k=1, state_cap=100, parts=16)
+    bounds_thorough = dict(N=4, M=3, K=8, enc_k=1, state_cap=40, parts=16)
     labeler = staticmethod(tie_labels)
     rule = ("states = arrays (leaf values with ties, zeros, negatives; missing values and missing lists at every level; empty "
             "lists and empty arrays) x encodings; transitions = 10 reducers x every axis in [-depth-1, depth] x mask_identity x "
